@@ -341,6 +341,23 @@ def main():
     for form in ('*args: %s', '**kwargs: %s', '*a: %s', 'x: int, *args: %s', '*args: %s, **kw: int'):
       for form2 in (form, '**kwargs: %s' if form.startswith('*args') else form):
         check_stub('from typing import overload\n' + HDR + '@overload\ndef f(' + form % ta + ') -> int: ...\n@overload\ndef f(' + form2 % tb + ') -> str: ...\n')
+  # overloads whose signatures carry `raise` clauses: the exception types come from the same pool as the return types
+  # (CombineReturnsAndExceptions keeps both per parameter list)
+  POOL = ['int', 'str', 'float', 'bytes']
+  nraise = 120 if tier == 'quick' else 1500
+  for _ in range(nraise):
+    if len(violations) >= 10:
+      break
+    nsig = rnd.choice([2, 2, 3, 4])
+    p = rnd.choice(POOL)
+    src = 'from typing import overload\n'
+    for _k in range(nsig):
+      params = 'x: %s' % (p if rnd.random() < 0.8 else rnd.choice(POOL))
+      ret = rnd.choice(POOL)
+      excs = rnd.sample(POOL, rnd.choice([0, 0, 1, 1, 2]))
+      body = ' ...' if not excs else ''.join('\n  raise %s()' % e for e in excs)
+      src += '@overload\ndef f(%s) -> %s:%s\n' % (params, ret, body)
+    check_stub(src)
   nrand = 250 if tier == 'quick' else 4000
   for _ in range(nrand):
     if len(violations) >= 10:
